@@ -249,3 +249,62 @@ def lookup(node: TNode, path: list[str]):
             return None
         cur = cur.children[p]
     return cur
+
+
+def root_form(bindings: list[BindingView], name: str) -> str:
+    """How the attribute `name` is written in a binding list: absent | explicit (one `name = ..`
+    binding) | dotted (`name.x = ..` bindings only) | mixed (both: the definitions merge in
+    Nix, the library keeps them in two structures) | inherit."""
+    explicit = dotted = inherited = False
+    for b in bindings:
+        if b.kind == "bind" and b.path and b.path[0] == name:
+            if len(b.path) == 1:
+                explicit = True
+            else:
+                dotted = True
+        elif b.kind != "bind" and name in (getattr(b, "names", None) or ()):
+            inherited = True
+    if explicit and dotted:
+        return "mixed"
+    if dotted:
+        return "dotted"
+    if explicit:
+        return "explicit"
+    return "inherit" if inherited else "absent"
+
+
+def mixed_roots(bindings: list[BindingView]) -> set:
+    names = {b.path[0] for b in bindings if b.kind == "bind" and b.path}
+    return {n for n in names if root_form(bindings, n) == "mixed"}
+
+
+def _all_binding_lists(bindings):
+    yield bindings
+    for b in bindings:
+        if b.sub is not None:
+            yield from _all_binding_lists(b.sub.bindings)
+
+
+def doc_has_mixed(dv: "DocView") -> bool:
+    lists = []
+    if dv.target is not None:
+        lists.append(dv.target.bindings)
+    lists += list(dv.layers)
+    return any(mixed_roots(bl) for top in lists for bl in _all_binding_lists(top))
+
+
+def mixed_on_path(bindings: list[BindingView], segs: list[str]) -> bool:
+    """Does the path pass through (or end at) an attribute written both ways?"""
+    cur = bindings
+    for i, s in enumerate(segs):
+        if root_form(cur, s) == "mixed":
+            return True
+        nxt = None
+        for b in cur:
+            if b.kind == "bind" and b.path and b.path[0] == s and len(b.path) == 1 and b.sub is not None:
+                nxt = b.sub.bindings
+                break
+        if nxt is None:
+            return False
+        cur = nxt
+    return False
